@@ -6,14 +6,18 @@ processes.  One model step = one *visible operation* (queue put/get/qsize, event
 acquire/release, read/write of `_sending_work` / `_data_cnt`, start/join) together with the thread-local code that follows
 it up to the next visible operation — exactly the scheduling points of the controlled scheduler that runs the real code.
 
+`end()` of a worker: `BaseFunctorWorker.run` runs `self.end()` in the `finally:` of its `try:`, i.e. AFTER the operation that ends
+its loop on every way out — the stop order has been taken from the work queue, the wid has been posted to the replace queue
+(`replace_queue.put(self.wid)`), the quota of a plain pool is used up, `begin()` or the functor has raised.  Between the two the
+process is still running (`exitcode` is None, a join without timeout blocks).  The model has this intermediate state in EVERY
+configuration: each of these steps leaves the worker at `WPc.ending` (`workerEnding`, which remembers `crashed`), and the
+`.ending` step — always enabled; the controlled scheduler announces it as `end W<wid>` — logs `end_` and exits (`workerExit`).
+
 `Cfg.joinTimeout`: the pool was built with a finite `join_timeout`.  `p.join(timeout=self.join_timeout)` in
 `ReplaceWorkerThread.run` and in `FunctorPool.__exit__` then returns after the timeout whether the worker has exited or not
-(`RPc.join`, `CPc.exitJoin` are enabled in both cases), and the `end()` of a retiring worker — the `finally:` of `run`, AFTER
-`replace_queue.put(self.wid)` — is a step of its own (`WPc.ending`; the controlled scheduler announces it as `end W<wid>`), so
-that the successor can be started, and `__exit__` can return, while the retired worker is still running.  Only the retiring
-exit goes through `.ending`: the other exits (stop order, `begin()` / functor raising) post nothing anybody could observe
-before the exit, so they stay one step.  With `joinTimeout = false` (`join_timeout=None`) the model is the former one, step
-for step.
+(`RPc.join`, `CPc.exitJoin` are enabled in both cases), so that the successor can be started, and `__exit__` can return, while
+the retired worker is still inside `end()`.  With `joinTimeout = false` (`join_timeout=None`) the two joins are enabled only
+when the worker has exited: they block while it is at `.ending`.
 
 Chunks are represented by their index; applying the functor, pulling the next chunk from the input iterator, the reorder
 `Buffer` and yielding to the caller are thread-local.  Worker faults (`begin()` raises, the functor raises at an item)
@@ -109,7 +113,7 @@ inductive WPc
   | get                       -- `work_queue.get()`
   | lockAcq | putNowait | lockRel | putBlock
   | retire                    -- `replace_queue.put(wid)`
-  | ending                    -- (`Cfg.joinTimeout`) the wid has been posted; `end()` of the `finally:` is still to run
+  | ending                    -- the loop is over (stop order / wid posted / quota / exception); `end()` of the `finally:` is still to run
   | exited
   deriving DecidableEq, Repr
 
@@ -297,10 +301,15 @@ def afterEnter (s : St) : St :=
 def workerExit (w : Worker) (crashed : Bool) : Worker :=
   { w with pc := .exited, log := w.log ++ [.end_], crashed := crashed, held := none }
 
+/-- the worker's loop is over (stop order taken / wid posted / quota of a plain pool used up / `begin()` or the functor
+raised: `crashed`); the `finally: self.end()` is still to run (`WPc.ending`) -/
+def workerEnding (w : Worker) (crashed : Bool) : Worker :=
+  { w with pc := .ending, crashed := crashed, held := none }
+
 /-- top of the `while self.max_chunks_per_worker > 0` loop -/
 def workerLoopTop (factory : Bool) (w : Worker) : Worker :=
   match w.quota with
-  | some 0 => if factory then { w with pc := .retire } else workerExit w false
+  | some 0 => if factory then { w with pc := .retire } else workerEnding w false
   | _ => { w with pc := .get }
 
 /-! ### the step function: `none` = the thread is not enabled (blocked, finished or not existing) -/
@@ -453,18 +462,18 @@ def stepW (s : St) (wid : Nat) : Option St :=
       let w := { w with bf := false }
       -- `begin()` is entered (logged) and either returns or raises; `finally: end()`
       let w := { w with log := w.log ++ [.begin] }
-      if s.cfg.beginFault.contains wid then some (setWorker s (workerExit w true))
+      if s.cfg.beginFault.contains wid then some (setWorker s (workerEnding w true))
       else some (setWorker s { w with pc := .bfSet })
     | .bfSet => some (setWorker s (workerLoopTop s.cfg.factory { w with bf := true }))
     | .get =>
       match s.workQ with
       | [] => none
-      | none :: r => some (setWorker { s with workQ := r } (workerExit w false))
+      | none :: r => some (setWorker { s with workQ := r } (workerEnding w false))
       | some i :: r =>
         let s := { s with workQ := r }
         -- the functor is entered for the chunk (logged) and either returns or raises; `finally: end()`
         let w := { w with log := w.log ++ [.item i] }
-        if s.cfg.itemFault.contains (wid, w.done) then some (setWorker s (workerExit w true))
+        if s.cfg.itemFault.contains (wid, w.done) then some (setWorker s (workerEnding w true))
         else some (setWorker s { w with held := some i, pc := .lockAcq })
     | .lockAcq => if s.lock.isNone then some (setWorker { s with lock := some (.w wid) } { w with pc := .putNowait }) else none
     | .putNowait =>
@@ -488,13 +497,12 @@ def stepW (s : St) (wid : Nat) : Option St :=
           let w := { w with full := false, held := none, done := w.done + 1, quota := w.quota.map (· - 1) }
           some (setWorker { s with resQ := s.resQ ++ [some i] } (workerLoopTop s.cfg.factory w))
     | .retire =>
-      -- `replace_queue.put(self.wid)`, then the `finally: self.end()` and the process exits.  With `join_timeout=None`
-      -- nobody can observe the time between the put and the exit (the replace thread joins the process), so it is one
-      -- step; with a finite timeout (`Cfg.joinTimeout`) the join of the replace thread may return while `end()` is still
-      -- running: `end()` and the exit are a step of their own (`.ending`)
-      if s.cfg.joinTimeout then some (setWorker { s with replQ := s.replQ ++ [some wid] } { w with pc := .ending })
-      else some (setWorker { s with replQ := s.replQ ++ [some wid] } (workerExit w false))
-    | .ending => some (setWorker s (workerExit w false))
+      -- `replace_queue.put(self.wid)`; the `finally: self.end()` and the exit of the process are a step of their own
+      some (setWorker { s with replQ := s.replQ ++ [some wid] } (workerEnding w false))
+    | .ending =>
+      -- the `finally: self.end()` of `run` (after the stop order was taken / the wid was posted / the quota of a plain pool
+      -- was used up / `begin()` or the functor raised), then the process exits
+      some (setWorker s (workerExit w w.crashed))
 
 def step (s : St) : Tid → Option St
   | .c => stepC s
